@@ -166,3 +166,89 @@ func TestC08Ladder(t *testing.T) {
 	}
 	st.Exhaustive["step ladder (L x placement x mode x dedup x values)"] = int64(st.Evaluations)
 }
+
+// TestC08LargeOrder: ONE order violation in a list of 140 000 keys, at every
+// power-of-two index (and its neighbours), at multiples of 65536/10000 and at the
+// ends. Every such list must be rejected; the intact list must be accepted.
+func TestC08LargeOrder(t *testing.T) {
+	st := newStats("C08")
+	defer st.write()
+	shard, nshards := envInt("VERIF_SHARD", 0), envInt("VERIF_NSHARDS", 1)
+	const n = 140000
+	base := make([]string, n)
+	for i := range base {
+		v := uint32(i) * 7
+		base[i] = string([]byte{byte(v >> 24), byte(v >> 16), byte(v >> 8), byte(v), 'k'})
+	}
+	pos := map[int]bool{0: true, 1: true, n - 2: true, n - 1: true}
+	for k := uint(6); k <= 17; k++ {
+		for d := -2; d <= 2; d++ {
+			if p := (1 << k) + d; p >= 0 && p < n {
+				pos[p] = true
+			}
+		}
+	}
+	for p := 10000; p < n; p += 10000 {
+		pos[p] = true
+	}
+	for p := 65536; p < n; p += 65536 {
+		pos[p-1], pos[p], pos[p+1] = true, true, true
+	}
+	var ps []int
+	for p := range pos {
+		ps = append(ps, p)
+	}
+	sortInts(ps)
+	run := func(c *Case, what string) {
+		sub := newStats("C08")
+		if err := checkC08(c, sub); err != nil {
+			if _, ok := err.(*violation); !ok {
+				t.Fatalf("HARNESS ERROR: %v", err)
+			}
+			path := writeReplay("C08", c)
+			fmt.Printf("VIOLATION property=C08 replay=%s\n", path)
+			fmt.Printf("DETAIL property=C08 %s: %s\n", what, oneLine(err.Error()))
+			t.Fatalf("C08 violated (%s): %v", what, err)
+		}
+		for k, v := range sub.Classes {
+			if !strings.HasPrefix(k, "gen=") {
+				st.classN("largelist:"+k, v)
+			}
+		}
+		h := fnv.New64a()
+		fmt.Fprint(h, what)
+		st.doneHash(h.Sum64(), true)
+	}
+	if shard == 0 {
+		c := &Case{Prop: "C08", Gen: "largelist/valid", Keys: hexes(base), Enc: "I32", Opt: OptSpec{0, 0, 0, 0}}
+		run(c, "intact list of 140000 keys")
+		st.addSample(map[string]interface{}{"gen": "largelist", "n": n, "note": "keys are 4-byte big-endian counters*7 + 'k'; one violation injected at index p", "positions": ps[:20]})
+	}
+	for i, p := range ps {
+		if i%nshards != shard {
+			continue
+		}
+		for _, kind := range []string{"swap", "equal"} {
+			if p+1 >= n {
+				continue
+			}
+			keys := append([]string{}, base...)
+			if kind == "swap" {
+				keys[p], keys[p+1] = keys[p+1], keys[p]
+			} else {
+				keys[p+1] = keys[p]
+			}
+			c := &Case{Prop: "C08", Gen: fmt.Sprintf("largelist/%s", kind), Keys: hexes(keys), Enc: "I32", Opt: OptSpec{0, 0, 0, Tri(2 * (i % 2))}, Scrib: 1}
+			run(c, fmt.Sprintf("%s at index %d of %d", kind, p, n))
+		}
+	}
+	st.Exhaustive["one violation in a 140000-key list, at boundary indexes"] = int64(st.Evaluations)
+}
+
+func sortInts(a []int) {
+	for i := 1; i < len(a); i++ {
+		for j := i; j > 0 && a[j-1] > a[j]; j-- {
+			a[j-1], a[j] = a[j], a[j-1]
+		}
+	}
+}
